@@ -19,7 +19,7 @@ PROPS = {
 # which scenario families a property draws its traces from (its own first)
 FOCUS = {
     "C01": ["c01", "c04", "c09"], "C02": ["c02", "c07"], "C03": ["c03", "c02"], "C04": ["c04", "c01", "c10"],
-    "C05": ["c05"], "C06": ["c02", "c08"], "C07": ["c07"], "C08": ["c08", "c05"], "C09": ["c09"], "C10": ["c10", "c04"],
+    "C18": ["c04", "c07", "c05"], "C05": ["c05"], "C06": ["c02", "c08"], "C07": ["c07"], "C08": ["c08", "c05"], "C09": ["c09"], "C10": ["c10", "c04"],
 }
 # a trace is non-trivial for the property if it contains ...
 def relevant(pid, lines):
@@ -111,8 +111,42 @@ def first_lines(tracefile):
     return out
 
 
+def replay_schedules(run, pid):
+    """Replay every stored model behaviour (attack schedules from weakened specs, model counterexamples,
+    TLC-simulated behaviours) against the real code and judge the recorded executions."""
+    import glob
+    files = sorted(glob.glob(os.path.join(vlib.SPEC, "schedules", "*.json")))
+    allsched = []
+    for f in files:
+        for s in json.load(open(f)):
+            s["file"] = os.path.basename(f)
+            allsched.append(s)
+    if not allsched:
+        return 0
+    sf = run.path("schedules.json")
+    json.dump(allsched, open(sf, "w"))
+    binp = run.build("ipamdrive")
+    out = run.path("sched.ndjson")
+    p = subprocess.run([binp, "-schedules", sf, "-out", out], stdout=subprocess.PIPE, stderr=subprocess.STDOUT, text=True, timeout=3000)
+    if p.returncode not in (0, 3):
+        raise vlib.Machinery("ipamdrive -schedules failed (rc %d):\n%s" % (p.returncode, p.stdout[-2000:]))
+    rep = run.validate_traces("Trace_GalaxyIPAM", "trace_ipam.cfg", out, timeout=3000)
+    traces = split(out)
+    rep["first_line"] = first_lines(out)
+    evaluate(run, pid, out, rep, traces)
+    run.coverage["traces_validated_against_impl"] += rep["stats"]["traces"]
+    run.coverage["evaluations"] += rep["stats"]["events"]
+    run.coverage["schedules_replayed"] = {"n": len(allsched), "files": [os.path.basename(f) for f in files],
+                                          "guards": sorted({s.get("guard", "") for s in allsched})}
+    if allsched:
+        run.coverage["samples"].append({"attack_schedule": {k: allsched[0][k] for k in ("scenario", "guard", "violated")},
+                                        "actions": allsched[0]["schedule"][:30]})
+    return len(allsched)
+
+
 def plugin_traces(run, pid, quick):
     """Generate, validate and evaluate plugin-level traces for property pid."""
+    replay_schedules(run, pid)
     foci = FOCUS[pid]
     plan = []
     if quick:
